@@ -1,4 +1,5 @@
-import LitexModel.Csr.Bank
+import LitexModel.Csr.Array
+import LitexModel.Csr.Gather
 import LitexModel.DriverLib
 /-
   Numeric port encoding of CSR banks for the line protocol.
@@ -68,5 +69,127 @@ def numBank (c : BankCfg) : NumMachine BankState where
       some ((bank c).next s i, encBankOut ((bank c).out s i))
     | none => none
   key s := toString (repr s)
+
+end Litex.Csr
+
+/-! ### Memory windows, bank arrays, Python-level functions -/
+namespace Litex.Csr
+open Litex Litex.Driver
+
+def takeN : Nat → List Nat → Option (List Nat × List Nat)
+  | 0, rest => some ([], rest)
+  | n + 1, x :: rest => (takeN n rest).map fun (a, b) => (x :: a, b)
+  | _, [] => none
+
+/-- `<bw> <pbits> <address> <width> <depth> <readonly> <ninit> <init>*` -/
+def parseSram : List Nat → Option (SramCfg × List Nat)
+  | bw :: pb :: a :: w :: d :: ro :: ni :: rest =>
+    (takeN ni rest).map fun (ini, rest') =>
+      ({ bw := bw, pbits := pb, address := a, width := w, depth := d, readOnly := ro != 0, init := ini }, rest')
+  | _ => none
+
+/-- inputs: adr re we dat_w page;  outputs: dat_r -/
+def numSram (c : SramCfg) : NumMachine SramState where
+  init := (sram c).init
+  step s ins :=
+    match parseBus ins with
+    | some (b, [pv]) =>
+      let i : SramIn := { bus := b, page := pv }
+      some ((sram c).next s i, [(sram c).out s i])
+    | _ => none
+  key s := toString (repr s)
+
+def parseBanks : Nat → List Nat → Option (List BankCfg × List Nat)
+  | 0, rest => some ([], rest)
+  | n + 1, rest =>
+    match parseBank rest with
+    | some (b, rest') => (parseBanks n rest').map fun (bs, r) => (b :: bs, r)
+    | none => none
+
+/-- `<sram> <haspage> <pagebank> <pagereg>` -/
+def parseSlots : Nat → List Nat → Option (List SramSlot × List Nat)
+  | 0, rest => some ([], rest)
+  | n + 1, rest =>
+    match parseSram rest with
+    | some (m, hp :: pbk :: prg :: rest') =>
+      (parseSlots n rest').map fun (ms, r) =>
+        ({ cfg := m, page := if hp != 0 then some (pbk, prg) else none } :: ms, r)
+    | _ => none
+
+/-- `<nbanks> <bank>* <nsrams> <slot>*` -/
+def parseArray : List Nat → Option ArrayCfg
+  | nb :: rest =>
+    match parseBanks nb rest with
+    | some (banks, ns :: rest') =>
+      match parseSlots ns rest' with
+      | some (srams, []) => some { banks := banks, srams := srams }
+      | _ => none
+    | _ => none
+  | _ => none
+
+def parseMasters : Nat → List Nat → Option (List Bus × List Nat)
+  | 0, rest => some ([], rest)
+  | n + 1, rest =>
+    match parseBus rest with
+    | some (b, rest') => (parseMasters n rest').map fun (bs, r) => (b :: bs, r)
+    | none => none
+
+def splitDevs : List BankCfg → List Nat → List (List Dev)
+  | [], _ => []
+  | b :: bs, l => parseDevs (l.take (2 * b.regs.length)) :: splitDevs bs (l.drop (2 * b.regs.length))
+
+/-- inputs: (adr re we dat_w) per master, then (dev_we dev_dat) per register of every bank;
+    outputs: dat_r, then (val re we r field*) per register of every bank -/
+def numArray (nm : Nat) (c : ArrayCfg) : NumMachine ArrayState where
+  init := (bankArray c).init
+  step s ins :=
+    match parseMasters nm ins with
+    | some (ms, rest) =>
+      let i : ArrayIn := { masters := ms, dev := splitDevs c.banks rest }
+      let o := (bankArray c).out s i
+      some ((bankArray c).next s i, o.datR :: ((o.banks.map fun rs => (rs.map encRegOut).flatten).flatten))
+    | none => none
+  key s := toString (repr s)
+
+/-- Option encoding on the wire: `0` = none, `n+1` = some n. -/
+def decOpt (n : Nat) : Option Nat := if n = 0 then none else some (n - 1)
+def encOpt : Option Nat → Nat
+  | none => 0
+  | some n => n + 1
+
+def callSort (args : List Nat) : String :=
+  match sortGathered (args.map decOpt) with
+  | .ok slots => "ok " ++ showNats (slots.map encOpt)
+  | .conflict => "conflict"
+  | .indexError => "indexerror"
+
+def parseDecls : List Nat → Option (List FieldDecl)
+  | [] => some []
+  | sz :: off :: rst :: p :: rest =>
+    (parseDecls rest).map ({ size := sz, offset := decOpt off, reset := rst, pulse := p != 0 } :: ·)
+  | _ => none
+
+/-- `fields (<size> <offset+1|0> <reset> <pulse>)*` → `ok <size> <reset> <offset>*` | `rejected` -/
+def callFields (args : List Nat) : String :=
+  match parseDecls args with
+  | some ds =>
+    match resolveFields ds with
+    | some fs => "ok " ++ showNats (fieldsSize fs :: fieldsReset fs :: fs.map (·.offset))
+    | none => "rejected"
+  | none => "bad-call"
+
+/-- `layout <bw> <ord> <nregs> <reg>*` → for every simple CSR in bank order: `reg word lo nbits last`, and then
+    `|` and `addrOf k j` for every word of every register (register-major, word ascending). -/
+def callLayout (args : List Nat) : String :=
+  match args with
+  | bw :: o :: n :: rest =>
+    match parseOrd o, parseRegs n rest with
+    | some ord, some (regs, []) =>
+      let ss := simpleCsrs bw ord regs
+      let a := (ss.map fun sc => [sc.reg, sc.word, sc.lo, sc.nbits, b2n sc.last]).flatten
+      let addrs := (regs.mapIdx fun k r => (List.range (regWords bw r)).map fun j => addrOf bw ord regs k j).flatten
+      showNats a ++ " | " ++ showNats addrs
+    | _, _ => "bad-call"
+  | _ => "bad-call"
 
 end Litex.Csr
